@@ -581,7 +581,7 @@ func runConc(v int, desc string, progs []string) string {
 		go func(i int, p string) {
 			defer wg.Done()
 			// each goroutine has its own handle/iterator tables but shares the base Number
-			local := &scriptEnv{v: env.v, handles: []handle{env.handles[0]}, src: env.src}
+			local := &scriptEnv{v: env.v, handles: []handle{env.handles[0]}, src: env.src, shared: true}
 			if separate {
 				if own, e2 := newScriptNumber(v, desc); e2 == "" {
 					local = own
